@@ -755,6 +755,32 @@ theorem runEv_spec_close (s : Sess) (es : List Ev) (ds tail : List Seg) (harr : 
           simp only [runEv, hr]
           exact ⟨by rw [i1, (r2 _ s' hr (by simp)).2.1, (r2 _ s' hr (by simp)).2.2], i2, i3.trans r3⟩
 
+/-- the number of pieces: ceil(len / f) -/
+theorem pieces_length (f : Nat) (hf : 0 < f) (fuel : Nat) (bs : Bytes) (h : bs.length ≤ fuel) :
+    (pieces f fuel bs).length = (bs.length + f - 1) / f := by
+  induction fuel generalizing bs with
+  | zero =>
+    have : bs = [] := List.eq_nil_of_length_eq_zero (by omega)
+    subst this
+    simp only [pieces, List.length_nil, Nat.zero_add]
+    exact (Nat.div_eq_of_lt (by omega)).symm
+  | succ n ih =>
+    unfold pieces
+    by_cases hb : bs = []
+    · subst hb
+      simp only [if_true, List.length_nil, Nat.zero_add]
+      exact (Nat.div_eq_of_lt (by omega)).symm
+    · have hpos : 0 < bs.length := List.length_pos_iff.mpr hb
+      simp only [hb, if_false, List.length_cons]
+      rw [ih (bs.drop f) (by simp only [List.length_drop]; omega), List.length_drop]
+      by_cases hge : f ≤ bs.length
+      · have e1 : bs.length - f + f - 1 = bs.length - 1 := by omega
+        have e2 : bs.length + f - 1 = (bs.length - 1) + f := by omega
+        rw [e1, e2, Nat.add_div_right _ hf]
+      · have e1 : bs.length - f + f - 1 = f - 1 := by omega
+        rw [e1, Nat.div_eq_of_lt (by omega)]
+        exact (Nat.div_eq_of_lt_le (by omega) (by omega)).symm
+
 /-! ## Shape of what a program queues -/
 
 theorem fragSize_ge (le : Option LE) : 32764 ≤ fragSize le := by
